@@ -29,6 +29,7 @@ func runC03(c *Ctx) {
 	// a panic below the dispatcher is swallowed by the connection barrier: the request gets no
 	// reply and the requests pipelined behind it are dropped with the connection
 	ruleArgumentIndexSafety(c, "R03.h")
+	ruleStoreIndexSafety(c, "R03.h")
 	ruleNilNilDeref(c, "R03.h")
 }
 
